@@ -266,28 +266,46 @@ class TreeContextMixin:
                 return self.create_value(scope_node).as_context()
             elif scope_node.type in ('comp_for', 'sync_comp_for'):
                 parent_context = from_scope_node(parent_scope(scope_node.parent))
-                if node.start_pos >= scope_node.children[-1].start_pos:
+                # Only the iterable (`in <iterable>`) is evaluated outside of
+                # this `for`; a trailing `if` or nested `for` is not.
+                children = scope_node.children
+                if children[1].type == 'sync_comp_for':  # async comprehension
+                    children = children[1].children
+                iterable = children[children.index('in') + 1]
+                if iterable.start_pos <= node.start_pos < iterable.end_pos:
                     return parent_context
                 return CompForContext(parent_context, scope_node)
             raise Exception("There's a scope that was not managed: %s" % scope_node)
 
+        def innermost_comp_for(comp_for, coming_from):
+            # The element of a comprehension sees the targets of all its
+            # `for`s, i.e. it lives in the innermost one.
+            if coming_from is not comp_for:
+                nested = comp_for.children[-1]
+                while nested.type in ('comp_for', 'sync_comp_for', 'comp_if'):
+                    if parser_utils.is_scope(nested):
+                        comp_for = nested
+                    nested = nested.children[-1]
+            return comp_for
+
         def parent_scope(node):
             while True:
+                child = node
                 node = node.parent
 
                 if parser_utils.is_scope(node):
                     return node
                 elif node.type in ('argument', 'testlist_comp'):
                     if node.children[1].type in ('comp_for', 'sync_comp_for'):
-                        return node.children[1]
+                        return innermost_comp_for(node.children[1], child)
                 elif node.type == 'dictorsetmaker':
                     for n in node.children[1:4]:
                         # In dictionaries it can be pretty much anything.
                         if n.type in ('comp_for', 'sync_comp_for'):
-                            return n
+                            return innermost_comp_for(n, child)
 
         scope_node = parent_scope(node)
-        if scope_node.type in ('funcdef', 'classdef'):
+        if scope_node.type in ('funcdef', 'classdef', 'lambdef'):
             colon = scope_node.children[scope_node.children.index(':')]
             if node.start_pos < colon.start_pos:
                 parent = node.parent
